@@ -203,3 +203,67 @@ void h_bootstrap(void) {
     VERIF_REACH();
 }
 #endif
+
+/* ================= FFT bootstrapping-key construction / destruction (init_/destroy_LweBootstrappingKeyFFT) =================
+ * bounded stand-in in the shape (labelled bounded): small concrete dimensions with extracted dimension != ring degree (k = 2),
+ * real LweBootstrappingKeyFFT constructor; allocation, copy and conversion callees are monitors.
+ * Decides: the FFT key owns a key-switching key of its OWN (never the coefficient-domain key's), with k*N rows (the extracted
+ * dimension), a copy of every row (i,j,p); one FFT image per input coefficient; destruction releases exactly what it owns. */
+#ifdef H_BKFFT
+#define B_n 2
+#define B_N 2
+#define B_K 2
+#define B_T 2
+#define B_BB 1
+static int n_newks, n_copy, n_conv, n_newfft, n_delks, n_delfft, badargs; static LweKeySwitchKey *own_ks; static TGswSampleFFT *own_fft;
+static int32_t ks_n, ks_t, ks_bb; static const LweParams *ks_par; static int seen[B_K * B_N][B_T][1 << B_BB];
+static LweKeySwitchKey src_ks; static const LweBootstrappingKey *g_bksrc; static int convseen[B_n];
+static LweSample rowsA[B_K * B_N * B_T * (1 << B_BB)], rowsB[B_K * B_N * B_T * (1 << B_BB)];
+static LweSample *l1A[B_K * B_N * B_T], *l1B[B_K * B_N * B_T]; static LweSample **l0A[B_K * B_N], **l0B[B_K * B_N];
+static void build_table(LweKeySwitchKey *k, LweSample *rows, LweSample **l1, LweSample ***l0, int32_t n, int32_t t, int32_t bb) {
+    k->n = n; k->t = t; k->basebit = bb; k->base = 1 << bb; k->ks0_raw = rows; k->ks1_raw = l1; k->ks = l0;
+    for (int p = 0; p < n * t; p++) l1[p] = rows + (1 << bb) * p;
+    for (int p = 0; p < n; p++) l0[p] = l1 + t * p;
+}
+LweKeySwitchKey *new_LweKeySwitchKey(int32_t n, int32_t t, int32_t basebit, const LweParams *out_params) {
+    n_newks++; ks_n = n; ks_t = t; ks_bb = basebit; ks_par = out_params;
+    LweKeySwitchKey *k = verif_alloc(sizeof(LweKeySwitchKey)); own_ks = k;
+    if (n <= B_K * B_N && t <= B_T && basebit <= B_BB) build_table(k, rowsB, l1B, l0B, n, t, basebit); else badargs++;
+    return k;
+}
+void delete_LweKeySwitchKey(LweKeySwitchKey *obj) { n_delks++; if (obj != own_ks) badargs++; else free(obj); }
+void lweCopy(LweSample *result, const LweSample *sample, const LweParams *params) {
+    n_copy++;
+    long d = result - rowsB, s = sample - rowsA;
+    if (d != s || d < 0 || d >= B_K * B_N * B_T * (1 << B_BB) || params != ks_par) { badargs++; return; }
+    seen[d / (B_T * (1 << B_BB))][(d / (1 << B_BB)) % B_T][d % (1 << B_BB)]++;
+}
+TGswSampleFFT *new_TGswSampleFFT_array(int32_t nbelts, const TGswParams *params) { n_newfft++; if (nbelts != B_n) badargs++; own_fft = verif_alloc((size_t)B_n * sizeof(TGswSampleFFT)); return own_fft; }
+void delete_TGswSampleFFT_array(int32_t nbelts, TGswSampleFFT *obj) { n_delfft++; if (obj != own_fft || nbelts != B_n) badargs++; else free(obj); }
+void tGswToFFTConvert(TGswSampleFFT *result, const TGswSample *source, const TGswParams *params) {
+    n_conv++; long i = result - own_fft; if (i < 0 || i >= B_n || source != &g_bksrc->bk[i]) badargs++; else convseen[i]++; }
+#include "extracted.inc"
+void h_b_bkfft(void) {
+    LweParams ip; *(int32_t *)&ip.n = B_n; TLweParams tp; *(int32_t *)&tp.N = B_N; *(int32_t *)&tp.k = B_K; *(int32_t *)&tp.extracted_lweparams.n = B_K * B_N;
+    TGswParams gp; *(const TLweParams **)&gp.tlwe_params = &tp;
+    build_table(&src_ks, rowsA, l1A, l0A, B_K * B_N, B_T, B_BB);
+    TGswSample bkrows[B_n];
+    LweBootstrappingKey bk; *(const LweParams **)&bk.in_out_params = &ip; *(const TGswParams **)&bk.bk_params = &gp; *(const TLweParams **)&bk.accum_params = &tp;
+    *(const LweParams **)&bk.extract_params = &tp.extracted_lweparams; bk.bk = bkrows; bk.ks = &src_ks; g_bksrc = &bk;
+    n_newks = n_copy = n_conv = n_newfft = n_delks = n_delfft = badargs = 0;
+    for (int i = 0; i < B_K * B_N; i++) for (int j = 0; j < B_T; j++) for (int p = 0; p < (1 << B_BB); p++) seen[i][j][p] = 0;
+    for (int i = 0; i < B_n; i++) convseen[i] = 0;
+    LweBootstrappingKeyFFT obj;
+    init_LweBootstrappingKeyFFT(&obj, &bk);
+    __CPROVER_assert(n_newks == 1 && ks_n == B_K * B_N && ks_t == B_T && ks_bb == B_BB && ks_par == &ip, "the FFT key gets a key-switching key of its own with k*N rows (extracted dimension), same t, basebit, output parameters");
+    __CPROVER_assert(obj.ks == own_ks && obj.ks != &src_ks, "the FFT key owns its key-switching key; it does not share the coefficient-domain key's (life cycles are independent)");
+    int all = 1; for (int i = 0; i < B_K * B_N; i++) for (int j = 0; j < B_T; j++) for (int p = 0; p < (1 << B_BB); p++) all &= (seen[i][j][p] == 1);
+    __CPROVER_assert(all && n_copy == B_K * B_N * B_T * (1 << B_BB), "every key-switching row (i,j,p) is copied exactly once into the same position");
+    __CPROVER_assert(n_newfft == 1 && obj.bkFFT == own_fft && n_conv == B_n && convseen[0] == 1 && convseen[B_n - 1] == 1, "one FFT image per input key coefficient, each converted once into its own slot");
+    __CPROVER_assert(obj.in_out_params == &ip && obj.bk_params == &gp && obj.accum_params == &tp && obj.extract_params == &tp.extracted_lweparams, "parameter pointers carried over");
+    __CPROVER_assert(badargs == 0, "no other allocation / copy / conversion");
+    destroy_LweBootstrappingKeyFFT(&obj);
+    __CPROVER_assert(n_delks == 1 && n_delfft == 1 && badargs == 0, "destruction releases the owned key-switching key and the FFT rows, each once");
+    VERIF_REACH();
+}
+#endif
